@@ -69,6 +69,9 @@ def run(ctx):
          "hello BOB?|hello AL!|[1][2]", "decorator-forwards-arguments"),
         ('<%! \ndef up(fn):\n    def go(context, name):\n        return fn(name.upper())\n    return go\n%><%def name="outer()"><%def name="inner(name)" decorator="up">in ${name}</%def>${inner("x")}</%def>${outer()}',
          "in X", "decorator-inline"),
+        # a decorated def nested in a call is a member of caller like any other
+        ('<%! \ndef deco(fn):\n    def go(context, *a, **k):\n        context.write("<")\n        fn(*a, **k)\n        context.write(">")\n        return ""\n    return go\n%>'
+         '<%def name="f()">${caller.inner()}|${caller.body()}</%def><%call expr="f()"><%def name="inner()" decorator="deco">IN</%def>b</%call>', "<IN>|b", "decorated-def-in-call"),
         # call with content: attributes as keyword arguments (literal text, expressions, mixtures in order)
         ('<%def name="f(a, b, c)">${a}|${b}|${c}|${type(b).__name__}</%def><%self:f a="lit" b="${1+1}" c="x${str(2)}y${str(3)}z"></%self:f>', "lit|2|x2y3z|int", "attr-values"),
         # caller.body with arguments, zero or several times; nested defs of the call
